@@ -93,6 +93,9 @@ def disciplined(body, local, depth=0, seen=None):
                 verdicts.append(disciplined(body, dl, depth + 1, seen))
             elif PANICKING.search(n):
                 verdicts.append(("panic", n.split("::")[-1]))
+            elif n.endswith("Result::<T, E>::err") and not x["dest"]["p"] and any(k_ in ("discr", "switch") for k_, _, _, _ in uses_of(body, x["dest"]["l"])):
+                # `if let Some(e) = r.err() { .. }`: the error is taken out and examined, not dropped
+                verdicts.append(("ok", "match"))
             elif MASKING.search(n):
                 verdicts.append(("bad", "error masked by .%s()" % n.split("::")[-1]))
             elif n.endswith("FromResidual::from_residual") or "from_residual" in n:
